@@ -190,3 +190,157 @@ Example C02_allow_list_disabled_scenario :
   snd (match_request (allow_rules (apply_changes exl_state (disable_allow [7]))) exl_rq) = false /\
   snd (match_request (block_rules (apply_changes exl_state (disable_allow [7]))) exl_rq) = true.
 Proof. split; [exact exl_before | exact exl_after]. Qed.
+
+(** * Whose settings, whose tags (round 4)
+
+    The property quantifies over "filtering off for the client" and over all
+    rule sets; which client a request belongs to, and which client tags reach
+    the rule engine, is decided by the registry of persistent clients
+    (client.Storage, the model of C04, Model/ClientIndex.v) from the request's
+    ClientID and address.  Model/PipelineClients.v computes the request's
+    client from (registry, leases, ClientID, address) instead of taking it as
+    an input. *)
+From AGH Require Import Model.PipelineClients Proofs.PipelineClients.
+From AGH Require Model.ClientIndex Proofs.ClientIndex.
+
+(** Response filtering applies to a request iff the request stage let it
+    through, protection is on and the filtering flag of the client that OWNS
+    the request is on, the owner being the one the precedence specification of
+    C04 names: the client that registered the ClientID; else the client
+    listing the address; else the client with the longest subnet containing
+    it; else the client with the MAC of the address' lease; else nobody (the
+    global flag).  For every registry satisfying the invariant (every history
+    of Add / Update / RemoveByName reaches only such, [C04_index_consistent]),
+    every lease table, every ClientID (registered, unregistered, absent). *)
+Theorem C02_response_filtering_uses_owner_settings :
+  forall allow_eng block_eng sb par ss srt paused c ix dhcp cid q r,
+  Proofs.ClientIndex.Inv ix ->
+  Proofs.ClientIndex.resolves ix dhcp cid (ci_addr (q_addr q)) r ->
+  let q' := attach paused ix dhcp cid q in
+  let o := match r with Some u => ClientIndex.deref ix u | None => None end in
+  (response_filtering_applies allow_eng block_eng sb par ss srt c q' <->
+   passes_request_stage allow_eng block_eng sb par ss srt c q' no_result /\
+   protection_on c = true /\ effective_filtering c o = true).
+Proof. exact response_filtering_uses_owner_settings. Qed.
+Print Assumptions C02_response_filtering_uses_owner_settings.
+
+(** The owner's filtering is off: the answer is delivered as it came. *)
+Theorem C02_owner_filtering_off_answer_unchanged :
+  forall allow_eng block_eng sb par ss srt paused c ix dhcp cid q r up res ans,
+  Proofs.ClientIndex.Inv ix ->
+  Proofs.ClientIndex.resolves ix dhcp cid (ci_addr (q_addr q)) r ->
+  let q' := attach paused ix dhcp cid q in
+  effective_filtering c (match r with Some u => ClientIndex.deref ix u | None => None end) = false ->
+  passes_request_stage allow_eng block_eng sb par ss srt c q' res ->
+  up (q_name q) (q_qtype q) = Some ans ->
+  o_resp (process allow_eng block_eng sb par ss srt c up q') = Some ans /\
+  o_orig_kept (process allow_eng block_eng sb par ss srt c up q') = false.
+Proof. exact owner_filtering_off_answer_unchanged. Qed.
+Print Assumptions C02_owner_filtering_off_answer_unchanged.
+
+(** The owner's filtering is on: the first offending record replaces the answer. *)
+Theorem C02_owner_filtering_on_offending_record_blocks :
+  forall allow_eng block_eng sb par ss srt paused c ix dhcp cid q r up ans pre rr0 post res,
+  Proofs.ClientIndex.Inv ix ->
+  Proofs.ClientIndex.resolves ix dhcp cid (ci_addr (q_addr q)) r ->
+  let q' := attach paused ix dhcp cid q in
+  effective_filtering c (match r with Some u => ClientIndex.deref ix u | None => None end) = true ->
+  protection_on c = true ->
+  passes_request_stage allow_eng block_eng sb par ss srt c q' no_result ->
+  up (q_name q) (q_qtype q) = Some ans ->
+  rs_answer ans = pre ++ rr0 :: post ->
+  Forall (clean allow_eng block_eng c (request_settings c q')) pre ->
+  check_rr allow_eng block_eng (request_settings c q') (strip_rr c rr0) = Some res ->
+  o_resp (process allow_eng block_eng sb par ss srt c up q') = Some (synthetic c (q_name q) (q_qtype q) (ips_from_rules res)) /\
+  o_result (process allow_eng block_eng sb par ss srt c up q') = res /\ r_filtered res = true /\
+  o_orig_kept (process allow_eng block_eng sb par ss srt c up q') = true.
+Proof. exact owner_filtering_on_offending_record_blocks. Qed.
+Print Assumptions C02_owner_filtering_on_offending_record_blocks.
+
+(** A ClientID nobody registered does not make the request anonymous: it
+    belongs to the client listing its address ... *)
+Theorem C02_unregistered_clientid_falls_back_to_address :
+  forall ix dhcp cid a u,
+  Proofs.ClientIndex.Inv ix ->
+  (forall u', ~ Proofs.ClientIndex.owner_of ix ClientIndex.c_cids cid u') ->
+  Proofs.ClientIndex.owner_of ix ClientIndex.c_ips (ci_addr a) u ->
+  exists cl, owner ix dhcp cid a = Some cl /\ ClientIndex.c_uid cl = u.
+Proof. exact unregistered_clientid_falls_back_to_address. Qed.
+Print Assumptions C02_unregistered_clientid_falls_back_to_address.
+
+(** ... or, when no client lists the address, to the client with the most
+    specific subnet containing it. *)
+Theorem C02_unregistered_clientid_falls_back_to_subnet :
+  forall ix dhcp cid a u p,
+  Proofs.ClientIndex.Inv ix ->
+  (forall u', ~ Proofs.ClientIndex.owner_of ix ClientIndex.c_cids cid u') ->
+  (forall u', ~ Proofs.ClientIndex.owner_of ix ClientIndex.c_ips (ci_addr a) u') ->
+  Proofs.ClientIndex.owner_of ix ClientIndex.c_subnets p u -> ClientIndex.contains p (fst (ci_addr a)) = true ->
+  (forall p' u', Proofs.ClientIndex.owner_of ix ClientIndex.c_subnets p' u' -> ClientIndex.contains p' (fst (ci_addr a)) = true ->
+     snd p' <= snd p /\ (p' = p \/ ClientIndex.subnet_compare p p' = Lt)) ->
+  exists cl, owner ix dhcp cid a = Some cl /\ ClientIndex.c_uid cl = u.
+Proof. exact unregistered_clientid_falls_back_to_subnet. Qed.
+Print Assumptions C02_unregistered_clientid_falls_back_to_subnet.
+
+(** The lookup without the fall-back ("ClientID present: by ClientID only")
+    is NOT the specified one: the registry with one client listing 192.0.2.20
+    and the unregistered ClientID "guest". *)
+Theorem C02_lookup_without_fallback_refuted :
+  exists ix dhcp cid a u,
+    Proofs.ClientIndex.Inv ix /\ Proofs.ClientIndex.resolves ix dhcp cid (ci_addr a) (Some u) /\
+    acf_find_no_fallback ix dhcp cid (ci_addr a) <> Some u.
+Proof. exact no_fallback_lookup_refuted. Qed.
+Print Assumptions C02_lookup_without_fallback_refuted.
+
+(** Every client of every registry reached by a history of Add / Update /
+    RemoveByName has its tags sorted (Persistent.validate sorts them on the
+    way in, whatever order the HTTP API or the configuration file gave). *)
+Theorem C02_registry_tags_sorted :
+  forall rc ops u cl,
+  ClientIndex.deref (ClientIndex.run rc ops ClientIndex.empty_index) u = Some cl ->
+  tags_sorted (ClientIndex.c_tags cl).
+Proof. exact registry_tags_sorted. Qed.
+Print Assumptions C02_registry_tags_sorted.
+
+(** ... so the tags the rule engine is asked with are sorted, for every
+    history, lease table, ClientID and request. *)
+Theorem C02_engine_tags_sorted :
+  forall paused c rc ops dhcp cid q,
+  tags_sorted (engine_tags paused c (ClientIndex.run rc ops ClientIndex.empty_index) dhcp cid q).
+Proof. exact engine_tags_sorted. Qed.
+Print Assumptions C02_engine_tags_sorted.
+
+(** urlfilter's $ctag test (matchClientTagsSpecific, a merge walk over the
+    rule's and the client's tag lists) on sorted lists is set membership ... *)
+Theorem C02_ctag_walk_sorted_is_membership :
+  forall rs cs, tags_sorted rs -> tags_sorted cs -> tags_walk rs cs = tags_meet rs cs.
+Proof. exact tags_walk_sorted_is_membership. Qed.
+Print Assumptions C02_ctag_walk_sorted_is_membership.
+
+(** ... hence a $ctag rule (its lists sorted by urlfilter's loadCTags)
+    matches a request exactly when [RuleEngine.match_ctags], the reading the
+    engine model uses, says so. *)
+Theorem C02_ctag_rule_matches_by_membership :
+  forall paused c rc ops dhcp cid q r,
+  tags_sorted (nr_ctag_perm r) -> tags_sorted (nr_ctag_restr r) ->
+  let tags := engine_tags paused c (ClientIndex.run rc ops ClientIndex.empty_index) dhcp cid q in
+  match_ctags_walk r tags = match_ctags r tags.
+Proof. exact ctag_rule_matches_by_membership. Qed.
+Print Assumptions C02_ctag_rule_matches_by_membership.
+
+(** On an UNSORTED client list the walk misses a tag the client has: rule
+    "$ctag=device_phone", client tags "user_child", "device_phone". *)
+Theorem C02_ctag_walk_unsorted_refuted :
+  exists rs cs, tags_sorted rs /\ tags_meet rs cs = true /\ tags_walk rs cs = false.
+Proof. exact tags_walk_unsorted_refuted. Qed.
+Print Assumptions C02_ctag_walk_unsorted_refuted.
+
+(** Non-vacuity: the example registry (one client listing 192.0.2.20 with the
+    ClientID "known", tags given as "user_child", "device_phone") satisfies the
+    invariant, resolves the request with the unregistered ClientID "guest" to
+    that client, whose stored tags are sorted. *)
+Example C02_registry_premises_satisfiable :
+  Proofs.ClientIndex.Inv ex_ix /\
+  Proofs.ClientIndex.resolves ex_ix (fun _ => None) guest (ci_addr ex_addr) (Some 1) /\
+  ClientIndex.deref ex_ix 1 = Some (ClientIndex.normalize ex_on).
+Proof. exact ex_premises. Qed.
